@@ -40,6 +40,9 @@ THEOREMS = [
     "C14.stmt_mysqlModify",
     "C14.stmt_mysqlChange",
     "C14.good_iff",
+    "C14.good_iff_c14Ok",
+    "C14.stmt_sqlite_renameColumn",
+    "C14.stmt_sqlite_renameTable",
     "C14.stmt_mssql_columnName",
     "C14.stmt_mssql_renameTable",
     "C14.percent_counterexample",
@@ -49,9 +52,7 @@ PARTIAL = {
     "C14.quote_roundtrip_partial": "full statement (quote_roundtrip_statement) fails on postgresql/mysql/mariadb for names containing '%' "
     "(written '%%' in --sql scripts, finding C14-PERCENT); C14.delimit_roundtrip is the unconditional theorem about delimiter doubling",
     "C14.needs_quotes_partial": "names ending in a newline excluded (SQLAlchemy's LEGAL_CHARACTERS '$' quirk)",
-    "Spec.Ident.forcedQuoted": "the clause 'a name passed as quoted_name(quote=True) occurs as a delimited identifier token' is part of "
-    "c14Ok (evaluated on every statement the implementation writes) but not of `Good`, i.e. it is not covered by a theorem",
-    "C14.stmt_*": "every stmt_ theorem is universally quantified over names/schemas/opaque texts/reserved-word predicates but assumes "
+    "C14.stmt_*": "`Good` is the oracle c14Ok (shape + forced-quote clause, theorem good_iff_c14Ok) on the model's text; every stmt_ theorem is universally quantified over names/schemas/opaque texts/reserved-word predicates but assumes "
     "NameOK (non-empty, no '%' on the %-doubling dialects, no TAB, no trailing newline, not quoted_name(quote=False)) and okText for "
     "the SQLAlchemy-rendered texts; it speaks about `compiled statement ++ command terminator`, the TAB/strip post-processing of "
     "DefaultImpl._exec is covered by the correspondence only (tab_counterexample shows it matters exactly for TAB)",
